@@ -5,6 +5,10 @@ import MiniMcmcVerif.Props.C18
 import Mathlib.Data.List.Perm.Basic
 import Mathlib.Data.List.Count
 import Mathlib.Logic.Function.Iterate
+import Mathlib.Tactic.Linarith
+import Mathlib.Tactic.Positivity
+import Mathlib.Data.Rat.Defs
+import Mathlib.Algebra.Order.Field.Basic
 
 /-!
 # C07 — same seed, same output: schedule independence and seed injectivity
@@ -139,6 +143,48 @@ theorem chain_seed_injective (seed : W) (i j : Nat) (hi : i < 2 ^ 64) (hj : j < 
     unfold gibbsSeed at this
     have h2 : seed + BitVec.ofNat 64 i + 0#64 = seed + BitVec.ofNat 64 j + 0#64 := by simpa using this
     exact hij (ofNat_add_injective seed 0#64 i j hi hj h2)
+
+/-- **every `f64` uniform variate lies in `[0, 1)`** — in fact in `[0, 1 - 2⁻⁵³]` — whatever word the generator
+    produced (this is the hypothesis "uniforms lie in [0,1)" of the C03 / C16 theorems). -/
+theorem unif53_lt (w : W) : unif53 w < 2 ^ 53 := by
+  unfold unif53
+  rw [BitVec.toNat_ushiftRight, Nat.shiftRight_eq_div_pow]
+  have := w.isLt
+  omega
+
+theorem unif24_lt (w : W) : unif24 w < 2 ^ 24 := by
+  unfold unif24
+  rw [BitVec.toNat_ushiftRight, Nat.shiftRight_eq_div_pow]
+  have := w.isLt
+  omega
+
+/-- as rationals: `0 ≤ u ≤ 1 - 2⁻⁵³ < 1` -/
+theorem unif53_unit (w : W) : (0 : ℚ) ≤ (unif53 w : ℚ) / 2 ^ 53 ∧ (unif53 w : ℚ) / 2 ^ 53 ≤ 1 - 1 / 2 ^ 53 := by
+  have h := unif53_lt w
+  have h' : (unif53 w : ℚ) ≤ 2 ^ 53 - 1 := by
+    have : unif53 w + 1 ≤ 2 ^ 53 := h
+    have : ((unif53 w + 1 : ℕ) : ℚ) ≤ ((2 ^ 53 : ℕ) : ℚ) := by exact_mod_cast this
+    push_cast at this; linarith
+  constructor
+  · positivity
+  · rw [div_le_iff₀ (by positivity)]; linarith [h']
+
+theorem unif24_unit (w : W) : (0 : ℚ) ≤ (unif24 w : ℚ) / 2 ^ 24 ∧ (unif24 w : ℚ) / 2 ^ 24 ≤ 1 - 1 / 2 ^ 24 := by
+  have h := unif24_lt w
+  have h' : (unif24 w : ℚ) ≤ 2 ^ 24 - 1 := by
+    have : unif24 w + 1 ≤ 2 ^ 24 := h
+    have : ((unif24 w + 1 : ℕ) : ℚ) ≤ ((2 ^ 24 : ℕ) : ℚ) := by exact_mod_cast this
+    push_cast at this; linarith
+  constructor
+  · positivity
+  · rw [div_le_iff₀ (by positivity)]; linarith [h']
+
+/-- every 53-bit numerator is hit: the crafted word `k <<< 11` used by the harnesses to inject `u = k·2⁻⁵³` -/
+theorem unif53_surj (k : Nat) (hk : k < 2 ^ 53) : unif53 (BitVec.ofNat 64 (k * 2 ^ 11)) = k := by
+  unfold unif53
+  rw [BitVec.toNat_ushiftRight, Nat.shiftRight_eq_div_pow, BitVec.toNat_ofNat]
+  rw [Nat.mod_eq_of_lt (by omega)]
+  omega
 
 /-! non-vacuity / known-answer: the model reproduces rand's documented stream for seed 0 -/
 example : (seedFromU64 0#64).s0 = 0xe220a8397b1dcdaf#64 := by decide
